@@ -91,6 +91,46 @@ fn run(ctx: &Ctx) {
         obs.sample(json!({"elements": deep_n, "stack_bytes": 2 * 1024 * 1024, "probe": "cfgdiff --deep, dev profile"}));
         Ok(())
     });
+    // volume: one long-lived parser defragments 430 messages of almost 10 MiB each (630 records of 16640 bytes per message, a reset()
+    // every seventh message): 4.5 GB pass through it in 270 900 calls. Whatever a parser adds up per byte or per fragment in a 32-bit
+    // integer overflows here (the harness is built with overflow checks)
+    ctx.run_fn("volume_history", true, "430 messages x 630 records x 16640 bytes through one TlsRecordsParser (4.5 GB, 270 900 calls)", |obs| {
+        let per_msg = 630usize;
+        let body = per_msg * 16640 - 4;
+        let mut first = vec![0x77u8; 16640];
+        first[..4].copy_from_slice(&[20, (body >> 16) as u8, (body >> 8) as u8, body as u8]);
+        let rest = vec![0x77u8; 16640];
+        let hdr = TlsRecordHeader { record_type: TlsRecordType::Handshake, version: TlsVersion(0x0303), len: 16640 };
+        let mut p = TlsRecordsParser::default();
+        let mut total = 0u64;
+        for m in 0..430usize {
+            for k in 0..per_msg {
+                let data: &[u8] = if k == 0 { &first } else { &rest };
+                let r = guard("TlsRecordsParser::parse_record", || match p.parse_record(TlsRawRecord { hdr, data }) {
+                    Ok((rem, v)) => Ok((rem.len(), v.len())),
+                    Err(Err::Incomplete(_)) => Err(true),
+                    Err(_) => Err(false),
+                })?;
+                total += 16640;
+                obs.evals_add(1);
+                let want_done = k + 1 == per_msg;
+                match r {
+                    Ok((0, 1)) if want_done => {}
+                    Err(true) if !want_done => {}
+                    other => return fail("C01:volume:result", format!("message {} record {} ({} bytes through this parser so far): answered {:?}", m + 1, k + 1, total, other)),
+                }
+            }
+            if m % 7 == 6 {
+                guard("TlsRecordsParser::reset", || p.reset())?;
+            }
+            if m % 16 == 0 {
+                crate::alloc::progress();
+            }
+        }
+        obs.nontrivial(total);
+        obs.sample(json!({"bytes_through_one_parser": total, "calls": 430 * per_msg}));
+        Ok(())
+    });
     ctx.run_tape("entry_points", entry_points, ctx.pick(6_000, 300_000), 600);
     let mut cases = Vec::new();
     for (fi, f) in asset_files().iter().enumerate() {
